@@ -52,6 +52,43 @@ class SolverStats:
 
 STATS = SolverStats()
 DUMP_DIR = None          # if set, every claim query is written there as .smt2
+CROSS = {'on': False, 'left': 0, 'agree': 0, 'disagree': [], 'inconclusive': 0, 'by': {}}
+
+
+def crosscheck(text, verdict):
+    """Re-decide a claim query with independent solver builds (/usr/bin/z3 4.8.12
+    and the cvc5 binary) under a time cap; `unknown`, timeouts and `(error` lines
+    are inconclusive; a sat/unsat disagreement is recorded (harness error)."""
+    import subprocess, tempfile, os
+    if CROSS['left'] <= 0 or verdict not in ('sat', 'unsat'):
+        return
+    CROSS['left'] -= 1
+    wd = os.path.join(os.path.dirname(os.path.dirname(os.path.abspath(__file__))), '.work')
+    os.makedirs(wd, exist_ok=True)
+    fd, path = tempfile.mkstemp(suffix='.smt2', dir=wd)
+    with os.fdopen(fd, 'w') as fh:
+        fh.write(text + '(check-sat)\n')
+    try:
+        for name, cmd in (('z3-4.8.12', ['/usr/bin/z3', '-T:10', path]),
+                          ('cvc5-1.0', ['cvc5', '--tlimit=10000', path])):
+            try:
+                out = subprocess.run(cmd, capture_output=True, text=True, timeout=30).stdout
+            except Exception:           # noqa: BLE001
+                CROSS['inconclusive'] += 1
+                continue
+            lines = [l.strip() for l in out.split('\n') if l.strip()]
+            if any(l.startswith('(error') for l in lines) or not lines or lines[0] not in ('sat', 'unsat'):
+                CROSS['inconclusive'] += 1
+                continue
+            d = CROSS['by'].setdefault(name, {'agree': 0, 'disagree': 0})
+            if lines[0] == verdict:
+                CROSS['agree'] += 1
+                d['agree'] += 1
+            else:
+                d['disagree'] += 1
+                CROSS['disagree'].append({'solver': name, 'z3_5.1': verdict, 'other': lines[0], 'query': text[:2000]})
+    finally:
+        os.unlink(path)
 _Z3 = None
 
 
@@ -128,6 +165,8 @@ def solve(formulas, timeout_ms, want_model=False, tag=''):
     verdict = str(r)
     STATS.n[verdict] = STATS.n.get(verdict, 0) + 1
     STATS.by_logic[logic] = STATS.by_logic.get(logic, 0) + 1
+    if CROSS['on'] and tag.startswith('claim'):
+        crosscheck(text, verdict)
     if DUMP_DIR and tag:
         import os
         h = hashlib.sha1(text.encode()).hexdigest()[:12]
@@ -509,7 +548,7 @@ class Context:
             STATS.trivial += 1
         else:
             nf = f.negate()
-            v, _ = self.check(nf, self.t_claim, tag='claim-' + name if DUMP_DIR else '')
+            v, _ = self.check(nf, self.t_claim, tag='claim-' + name if (DUMP_DIR or CROSS['on']) else '')
             rec['verdict'] = v
             if v == 'sat':
                 rec['model'] = self._input_values(self._best_model(nf) or {})
